@@ -155,7 +155,8 @@ def check(ctx):
     from ..pathcond import parents_of, path_condition
     pm = parents_of(fn)
     elts_p = sb.params[1]
-    loops = [n for n in fn.body if isinstance(n, ast.For) and norm(n.iter) == elts_p]
+    loops = [n for n in fn.body if isinstance(n, ast.For) and norm(n.iter) == elts_p
+             and any(isinstance(c, ast.Call) and isinstance(c.func, ast.Attribute) and c.func.attr == "append" and c.args and norm(c.args[0]) == norm(n.target) for c in ast.walk(n))]
     ctx.require(len(loops) == 1, f"sort_by_order: classification loop over `{elts_p}` not found")
     loop = loops[0]
     ev = norm(loop.target)
@@ -252,6 +253,33 @@ def check(ctx):
         ctx.check(n_app == 1 and rec == by_name, "C16.R4", f"{sb.qualname}:emitter-shape", e.node, f"the emitter appends {n_app} time(s) and recurses into {sorted(rec)} (name buckets: {sorted(by_name)})", sb, e.node, detail="append once; recurse into every name bucket")
         order_ok = [norm(n.iter.value) if isinstance(n, ast.For) else "append" for n in e.node.body if isinstance(n, ast.For) or (isinstance(n, ast.Expr) and "result.append" in norm(n))]
         ctx.check(order_ok == ["before", "append", "after"], "C16.R4", f"{sb.qualname}:emitter-order", e.node, f"emission order is {order_ok}: elements marked before= must precede and after= must follow their target", sb, e.node, detail="before, element, after")
+    # ---------------- R5: every element is reached, once (attachment cycles)
+    ctx.rule("C16.R5", "elements attached to each other (after= / before= forming a cycle, or an element attached to itself) are reached from no order group: sort_by_order sweeps all the elements through the emitter after the groups, and the emitter emits an element at most once", floor=3)
+    if len(emit) == 1:
+        e = emit[0]
+        sweeps = [n for n in rest if isinstance(n, ast.For) and norm(n.iter) == elts_p
+                  and any(isinstance(c, ast.Call) and norm(c.func) == e.name and c.args and norm(c.args[0]) == norm(n.target) for c in ast.walk(n))]
+        drain_pos = [rest.index(st) for st in rest if any(d in list(ast.walk(st)) for d in drains)]
+        ctx.check(bool(sweeps) and (not drain_pos or rest.index(sweeps[0]) > max(drain_pos)), "C16.R5", f"{sb.qualname}:sweep", drains[0] if drains else fn.body[-1],
+                  "only the elements of the order groups and those attached to them are emitted: elements whose after= / before= targets form a cycle (or name the element itself) are silently dropped from the serialized object, the schemas and the GraphQL type",
+                  sb, fn, detail=f"for elt in {elts_p}: {e.name}(elt) after the groups")
+        # the guard: `if <k> in <S>: return` then `<S>.add(<k>)` before any append / recursion
+        body = e.node.body
+        guard_i = next((i for i, st in enumerate(body) if isinstance(st, ast.If) and not st.orelse and len(st.body) == 1 and isinstance(st.body[0], ast.Return)
+                        and isinstance(st.test, ast.Compare) and len(st.test.ops) == 1 and isinstance(st.test.ops[0], ast.In) and isinstance(st.test.comparators[0], ast.Name)), None)
+        first_emit = next((i for i, st in enumerate(body) if any(isinstance(c, ast.Call) and norm(c.func) in ("result.append", e.name) for c in ast.walk(st))), len(body))
+        ok = False
+        if guard_i is not None and guard_i < first_emit:
+            g = body[guard_i]
+            S, k = g.test.comparators[0].id, norm(g.test.left)
+            marks = [i for i, st in enumerate(body) if isinstance(st, ast.Expr) and norm(st.value) == f"{S}.add({k})"]
+            created = any(isinstance(t, ast.Assign) and norm(t.targets[0]) == S and norm(t.value) in ("set()",) for t in fn.body)
+            ok = bool(marks) and guard_i < marks[0] < first_emit and created
+            kdef = [st for st in body[:guard_i] if isinstance(st, ast.Assign) and norm(st.targets[0]) == k]
+            ok = ok and (k == e.params[0] or (len(kdef) == 1 and norm(kdef[0].value) == f"{sb.params[2]}({e.params[0]})"))
+        ctx.check(ok, "C16.R5", f"{sb.qualname}:once", e.node, "the emitter does not skip an element already emitted (guard on a set of emitted names, marked before recursing): with the final sweep an element is emitted twice, and an attachment cycle recurses forever",
+                  sb, e.node, detail="if name in added: return; added.add(name) before append / recursion")
+        ctx.check(any(isinstance(st, ast.Return) and norm(st.value) == "result" for st in fn.body[-1:]), "C16.R5", f"{sb.qualname}:returns-result", fn.body[-1], "sort_by_order does not end by returning the emitted list", sb, fn, detail="return result")
     # the shortcut returns the single group only when nothing is attached
     for n in fn.body:
         if isinstance(n, ast.If) and any(isinstance(x, ast.Return) for x in n.body):
@@ -268,6 +296,12 @@ def mutants(mb):
     mb.add_text("emitter-order-swapped", O, "        for before_elt in before[elt_name]:\n            add_to_result(before_elt)\n        result.append(elt)\n", "        result.append(elt)\n        for before_elt in before[elt_name]:\n            add_to_result(before_elt)\n", "C16.R4", "emitter-order")
     mb.add_text("shortcut-ignores-before", O, "    if not after and not before and len(groups) == 1:", "    if not after and len(groups) == 1:", "C16.R4", "shortcut")
     mb.add_text("classified-twice", O, "        elif ordering.order is not None:\n            groups[ordering.order].append(elt)\n", "        elif ordering.order is not None:\n            groups[ordering.order].append(elt)\n            groups[0].append(elt)\n", "C16.R4", "classified-once")
+    mb.add_text("no-cycle-sweep", O, "    for elt in elts:\n        add_to_result(elt)\n    return result\n", "    return result\n", "C16.R5", "sweep")
+    mb.add_text("sweep-before-groups", O, "    for value in sorted(groups):\n        for elt in groups[value]:\n            add_to_result(elt)\n    # elements attached to each other in a cycle are reached from no group\n    for elt in elts:\n        add_to_result(elt)\n",
+                "    for elt in elts:\n        add_to_result(elt)\n    for value in sorted(groups):\n        for elt in groups[value]:\n            add_to_result(elt)\n", "C16.R5", "sweep")
+    mb.add_text("emitter-unguarded", O, "        if elt_name in added:\n            return\n        added.add(elt_name)\n", "", "C16.R5", "once")
+    mb.add_text("emitter-marks-late", O, "        added.add(elt_name)\n        for before_elt in before[elt_name]:\n            add_to_result(before_elt)\n", "        for before_elt in before[elt_name]:\n            add_to_result(before_elt)\n        added.add(elt_name)\n", "C16.R5", "once")
+    mb.add_text("neg-sweep-renamed", O, "    for elt in elts:\n        add_to_result(elt)\n    return result\n", "    for remaining in elts:\n        add_to_result(remaining)\n    return result\n", negative=True)
     O = "apischema/ordering.py"
     S = "apischema/serialization/__init__.py"
     J = "apischema/json_schema/schema.py"
